@@ -33,7 +33,8 @@ structure St where
   defs : List TDef := []
   outs : List (String × (String × Option Key)) := []      -- plz-out per target name
   caches : List (String × List (Key × String)) := []
-  fg : List (String × String) := []                        -- filegroup links in plz-out
+  fg : List (String × (String × Bool)) := []               -- filegroup outputs in plz-out: content, and whether the file
+                                                           -- is still the same inode as the source (def rewrites the source by rename)
 
 /-! encoding -/
 
@@ -139,7 +140,8 @@ def step (st : St) (line : String) : St × String :=
       let sameShape : Bool := match st.defs.find? (·.name = name) with | some old => old.shape == shape | none => true
       if knownShapes.contains shape && firstIs cid shape && cid.length == 2 && sameShape then
         let d : TDef := ⟨name, shape, v, cid, declared⟩
-        ({ st with defs := st.defs.filter (·.name ≠ name) ++ [d] }, "ok")
+        ({ st with defs := st.defs.filter (·.name ≠ name) ++ [d],
+                   fg := st.fg.map (fun e => if e.1 = name then (name, (e.2.1, false)) else e) }, "ok")
       else (st, "bad-op")
     | _, _, _ => (st, "bad-op")
   | ["inplace", name, cid] =>
@@ -147,7 +149,7 @@ def step (st : St) (line : String) : St × String :=
     | some d, some _ =>
       if d.shape == "G" && firstIs cid "G" then
         ({ st with defs := st.defs.map (fun x => if x.name = name then { x with cid := cid } else x),
-                   fg := st.fg.map (fun e => if e.1 = name then (name, cid) else e) }, "ok")
+                   fg := st.fg.map (fun e => if e.1 = name ∧ e.2.2 then (name, (cid, true)) else e) }, "ok")
       else (st, "bad-op")
     | _, _ => (st, "bad-op")
   | ["wipe"] => ({ st with outs := [], fg := [] }, "ok")
@@ -177,9 +179,10 @@ def step (st : St) (line : String) : St × String :=
             (memo.bind fun m => targetOutputHash env (isFileOf st.digs) cfgA (outsOf st.digs m))).isSome
       let key : Key := ⟨st.cfg, d.shape, d.variant, d.cid, d.declared⟩
       if d.shape = "G" then
-        let (out', res) := buildFilegroup genS check key d.cid (st.fg.lookup name)
+        let cur := st.fg.lookup name
+        let (out', res) := buildFilegroup genS check key d.cid (cur.map (·.1))
         let fg' := match out' with
-          | some c => setAssoc st.fg name c
+          | some c => setAssoc st.fg name (c, if res = .reused then (cur.map (·.2)).getD false else true)
           | none => st.fg.filter (·.1 ≠ name)
         let rc := if res = .failed then "fail" else "ok"
         ({ st with fg := fg' }, "rc=" ++ rc ++ " ran=0 out=" ++ (out'.getD "missing") ++ " stamp=0 cache=-")
